@@ -12,6 +12,7 @@ import (
 	cosmosbip39 "github.com/cosmos/go-bip39"
 	"github.com/ethereum/go-ethereum/accounts"
 	"github.com/stretchr/testify/require"
+	"golang.org/x/text/unicode/norm"
 
 	"github.com/EscanBE/evermint/v12/crypto/ethsecp256k1"
 	evhd "github.com/EscanBE/evermint/v12/crypto/hd"
@@ -251,10 +252,10 @@ func (d *drv) deriveCase(mnemonic, pass string, path []uint32, pathStr string, t
 		}
 	}
 	// the key is usable: its address is the address of k*G
-	if tag != "bulk" {
+	if tag != "bulk" && bytes.Equal(got, want) {
 		priv := &ethsecp256k1.PrivKey{Key: got}
 		p := pubOfPriv(got)
-		if !bytes.Equal(priv.PubKey().Address().Bytes(), keccak(append(pad32(p.x), pad32(p.y)...))[12:]) {
+		if pk := priv.PubKey(); pk == nil || !bytes.Equal(pk.Address().Bytes(), keccak(append(pad32(p.x), pad32(p.y)...))[12:]) {
 			d.side.Hit("C19/crypto/hd/address-of-derived-key", "address of the derived key is not keccak(k*G)[12:]", c)
 		}
 	}
@@ -311,6 +312,10 @@ func (d *drv) runHD(r *Rng, n int) {
 		mn, err := cosmosbip39.NewMnemonic(ent)
 		require.NoError(d.t, err)
 		pass := passes[rr.Intn(len(passes))]
+		if i < len(passes) { // every spelling class (ASCII, Cyrillic, full-width, decomposed, precomposed) in every run
+			pass = passes[len(passes)-1-i]
+		}
+		d.side.Count(fmt.Sprintf("derive:passphrase:nfkd-normalized=%v", norm.NFKD.String(pass) == pass))
 		per := 2 + n/15
 		for j := 0; j < per; j++ {
 			var path []uint32
@@ -371,6 +376,23 @@ func (d *drv) runHD(r *Rng, n int) {
 		}
 		d.deriveCase(strings.Join(append(append([]string{}, words[:len(words)-1]...), "notaword"), " "), pass, []uint32{hk + 44}, "m/44'", "bad-word")
 	}
+	// BIP-39: mnemonic and passphrase enter PBKDF2 in NFKD form, so canonically equivalent spellings of a passphrase
+	// (precomposed / decomposed "e-acute", full-width / ASCII "pass") must give the same key.
+	{
+		mnN, err := cosmosbip39.NewMnemonic(randBytes(r.Fork(555), 16))
+		require.NoError(d.t, err)
+		for _, pair := range [][2]string{{"\u00e9", "e\u0301"}, {"\uff50\uff41\uff53\uff53", "pass"}, {"caf\u00e9 \u2460", "cafe\u0301 1"}} {
+			k1, e1 := derive(mnN, pair[0], "m/44'/60'/0'/0/0")
+			k2, e2 := derive(mnN, pair[1], "m/44'/60'/0'/0/0")
+			d.side.Count("derive:passphrase-equivalent-spellings")
+			if e1 != nil || e2 != nil || !bytes.Equal(k1, k2) {
+				d.side.Hit("C19/crypto/hd/passphrase-not-nfkd-normalized", "two canonically equivalent spellings of a BIP-39 passphrase derive different keys (BIP-39 prescribes NFKD)",
+					map[string]interface{}{"mnemonic": mnN, "passphrase_a": fmt.Sprintf("%+q", pair[0]), "passphrase_b": fmt.Sprintf("%+q", pair[1]), "key_a": hx(k1), "key_b": hx(k2)})
+			}
+			d.deriveCase(mnN, pair[0], []uint32{hk + 44, hk + 60, hk, 0, 0}, "m/44'/60'/0'/0/0", "nfkd")
+		}
+	}
+
 	// the classic divergence: hardened child of a parent whose private key has a leading zero byte.
 	// Search paths (cheap: no PBKDF2) under a fixed mnemonic until a few are found; all searched paths are checked.
 	mn, err := cosmosbip39.NewMnemonic(randBytes(r.Fork(777), 16))
